@@ -4243,6 +4243,7 @@ def bundle_readpath(P, R, L):
     R.once(own10_cache_partitions, P, R, L)
     R.once(own11_table_cache_key, P, R, L)
     agr2_codec_pairs(P, R, L, groups=("table",))
+    R.once(grd27_separator_strictly_below_next_key, P, R, L)
 
 
 def bundle_recovery(P, R, L):
@@ -4294,6 +4295,7 @@ def bundle_no_assertion_trips(P, R, L):
     R.once(pair14_input_expansion, P, R, L)
     R.once(grd23_read_sample_threshold, P, R, L)
     R.once(grd25_finish_only_with_builder, P, R, L)
+    R.once(ord20_empty_block_tested_before_finalize, P, R, L)
 
 
 # ------------------------------------------------------------------------------------------- GRD-20 a database is created only when none exists
@@ -5161,3 +5163,78 @@ def grd26_reused_flag_truthful(P, R, L, rule="GRD-26"):
     R.check(rule, fn + "|reused-only-when-adopted", bool(calls) and n > 0 and not bad, where(b),
             "Ok(true) ('the manifest was adopted, write no new one') is returned only over the true edge of maybe_reuse_manifest",
             "; ".join(bad) or "%d Ok returns, %d true edges" % (n, len(true_edges)))
+
+
+def ord19_manual_request_withdrawn_after_work(P, R, L, rule="ORD-19"):
+    """DB::force_level_compaction leaves its wait loop as soon as a background error (or shutdown) shows up — possibly while
+    the compaction thread is in the unlocked part of the very compaction it requested. CompactionWorker::
+    coordinate_compaction ends that compaction with `maybe_manual_compaction.take().unwrap()`: if the requester has
+    emptied the slot in the meantime the thread panics with background_compaction_scheduled still set, and Drop, stalled
+    writers and the next compact_range wait for ever. The withdrawal (`take()` / `= None` on maybe_manual_compaction in
+    force_level_compaction) is therefore reached only over the `background_compaction_scheduled == false` edge of a
+    waiting loop (LevelDB: "finish current background compaction in the case where the signal was due to an error")."""
+    fn = "db::DB::force_level_compaction"
+    b = P.body(fn)
+    if b is None:
+        return R.missing_anchor(rule, fn)
+    R.analysed(b)
+    from ..rules import switch_target
+    takes = [c for c in b.calls() if c.name == "std::option::Option::take" and not b.is_cleanup(c.bb)
+             and any("maybe_manual_compaction" in o.path for o in origins(b, c.args[0]))]
+    nones = [s for s in field_stores(b, "maybe_manual_compaction")
+             if s[2]["rv"]["k"] == "aggregate" and s[2]["rv"].get("variant") == "None"]
+    sites = [(c.bb, c.line) for c in takes] + [(s[0], s[2].get("line")) for s in nones]
+    waits = [c for c in b.calls() if not b.is_cleanup(c.bb) and is_wait(c)]
+    edges = []
+    for fb in field_reads(b, "background_compaction_scheduled"):
+        t = b.term(fb)
+        if t["k"] == "switch" and in_cycle(b, fb) and any(in_cycle(b, w.bb) and w.bb in b.reachable(fb) for w in waits):
+            edges.append((fb, switch_target(t, 0)))
+    bad = ["line %s" % ln for (bb, ln) in sites if not (edges and b.must_pass(bb, through_edges=edges))]
+    R.check(rule, fn + "|request-withdrawn-only-after-background-work-finished", bool(sites) and not bad, where(b),
+            "the manual request is taken out of the slot by the requester only after a waiting loop observed "
+            "background_compaction_scheduled == false", "; ".join(bad) or "withdrawal sites %d, loop exits %d" % (len(sites), len(edges)))
+
+
+def grd27_separator_strictly_below_next_key(P, R, L, rule="GRD-27"):
+    """The index entry of a data block is a separator S with last key of the block <= S < first key of the next block.
+    Table::get positions on the first index entry >= the lookup key, so an S that EQUALS the next block's first user key
+    sends a lookup for that key (with the largest sequence bound) into the earlier block, where it finds nothing. The
+    byte-level shortener may therefore bump a byte only on the exact edge `smaller[i] + 1 < greater[i]`."""
+    fn = "<&[u8] as utils::bytes::BinarySeparable>::find_shortest_separator"
+    b = P.body(fn)
+    if b is None:
+        return R.missing_anchor(rule, fn)
+    R.analysed(b)
+    is_inc = lambda os_: any(o.kind == "binop" and str(o.name).startswith("Add") for o in os_)
+    is_next = lambda os_: any(o.kind == "param" and o.name == 2 for o in os_) and not any(o.kind == "param" and o.name == 1 for o in os_)
+    edges = []
+    for c in comparisons(b):
+        edges += c.edges_where("lt", is_inc, is_next, exact=True)
+    builds = [c for c in b.calls() if not b.is_cleanup(c.bb) and (c.name or "").endswith("to_vec")]
+    # the shortened separator is the one built from a PREFIX of `smaller` (an index / range expression), not the full copy
+    short = [c for c in builds if any(o.kind == "call" and "index" in (o.name or "") for o in origins(b, c.args[0], transparent=frozenset()))]
+    ok = bool(edges) and bool(short) and all(b.must_pass(c.bb, through_edges=edges) for c in short)
+    R.check(rule, fn + "|bumped-byte-stays-below-the-next-key", ok, where(b),
+            "the shortened separator (prefix of `smaller` with its last byte incremented) is built only on the exact edge `smaller[i] + 1 < greater[i]`",
+            "strict edges %d, separator construction sites %d" % (len(edges), len(short)))
+
+
+def ord20_empty_block_tested_before_finalize(P, R, L, rule="ORD-20"):
+    """TableBuilder::flush_data_block decides 'nothing to flush' on the builder's buffer. BlockBuilder::finalize appends
+    the restart array to that buffer, so the emptiness test is only meaningful before it: finalize is reached only over
+    the false edge of is_empty() (an empty block flushed as data makes add_entry unwrap a missing last key)."""
+    fn = "tables::table_builder::TableBuilder::flush_data_block"
+    b = P.body(fn)
+    if b is None:
+        return R.missing_anchor(rule, fn)
+    R.analysed(b)
+    fin = [c for c in b.calls() if not b.is_cleanup(c.bb) and strip_generics(c.name or "").endswith("block_builder::BlockBuilder::finalize")]
+    emp = [c for c in b.calls() if not b.is_cleanup(c.bb) and strip_generics(c.name or "").endswith("block_builder::BlockBuilder::is_empty")]
+    non_empty = []
+    for e in emp:
+        for t in _bt(b, e.dest["l"]):
+            non_empty += t.err_edges()
+    ok = bool(fin) and bool(non_empty) and all(b.must_pass(f.bb, through_edges=non_empty) for f in fin)
+    R.check(rule, fn + "|finalize-only-a-non-empty-block", ok, where(b),
+            "BlockBuilder::finalize is reached only over the `is_empty() == false` edge", "finalize sites %d, non-empty edges %d" % (len(fin), len(non_empty)))
